@@ -442,9 +442,9 @@ func (i indexAccessor) Set(container, val Object) Object {
 
 		if i.kind == ObjectTypeMap && ok {
 			c.Value[pos] = val
-		}
 
-		return UNDEFINED
+			return UNDEFINED
+		}
 	}
 
 	return newError("index assignation for %q type is not supported", container.Type())
